@@ -3312,7 +3312,12 @@ impl<'s> Semantics<'s> {
                 .pop_value(block, self.mode().bits(), self.instruction)?;
 
             if detail.op_count == 1 {
-                let imm = self.operand_load(block, &detail.operands[0])?;
+                // the 16-bit immediate, at the width of the stack pointer whatever
+                // operand size capstone reports for it
+                let imm = expr_const(
+                    detail.operands[0].imm() as u64 & 0xffff,
+                    self.mode().bits(),
+                );
                 let sp = self.get_register(x86_reg::X86_REG_SP)?.get_full()?;
                 sp.set(block, Expr::add(sp.get()?, imm)?)?;
             }
